@@ -188,15 +188,21 @@ def _safe(e):
         return False
 
 
+def _last(tb):
+    lines = [l for l in (tb or '').strip().splitlines() if l.strip()]
+    where = [l.strip() for l in lines if l.strip().startswith('File ')][-1:] or ['']
+    return (lines[-1] if lines else '') + ' @ ' + where[0]
+
+
 def compare(obs, model, what):
     """-> list of problem strings (empty = transparent)."""
     probs = []
     if obs.kind != model.kind:
-        probs.append(f'{what}: {obs.brief()} but uncached call {model.brief()}' + (('\n' + obs.tb) if obs.tb else ''))
+        probs.append(f'{what}: {obs.brief()} but uncached call {model.brief()}' + ((' | ' + _last(obs.tb)) if obs.tb else ''))
         return probs
     if obs.kind == 'raise':
         if obs.exc != model.exc:
-            probs.append(f'{what}: raised {obs.exc}, uncached call raised {model.exc}\n{obs.tb}')
+            probs.append(f'{what}: raised {obs.exc}, uncached call raised {model.exc} | {_last(obs.tb)}')
     elif obs.value != model.value:
         probs.append(f'{what}: value {json.dumps(obs.value)[:300]} != uncached value {json.dumps(model.value)[:300]}')
     if obs.logs != model.logs:
